@@ -59,6 +59,7 @@ type c03Shape struct {
 	Flat    bool // all group handlers on one Group instead of nested groups
 	Late    bool // the last application middleware and the action are installed only after the application has served requests
 	Swap    bool // the application first serves with as many do-nothing middleware, which Handlers() then replaces by the real ones
+	Head    bool `json:",omitempty"` // AutoHead is on and the request is a HEAD request (served by the chain registered alongside the GET route)
 }
 
 func (s c03Shape) n() int {
@@ -70,7 +71,7 @@ func (s c03Shape) n() int {
 }
 
 func (s c03Shape) String() string {
-	return fmt.Sprintf("mw=%d group=%d route=%d action=%v flat=%v late=%v swap=%v", s.M, s.G, s.R, s.Action, s.Flat, s.Late, s.Swap)
+	return fmt.Sprintf("mw=%d group=%d route=%d action=%v flat=%v late=%v swap=%v autohead=%v", s.M, s.G, s.R, s.Action, s.Flat, s.Late, s.Swap, s.Head)
 }
 
 type c03Ev struct {
@@ -84,6 +85,7 @@ type c03Ev struct {
 type c03World struct {
 	f      *flamego.Flame
 	path   string
+	method string
 	prog   []c03Beh
 	trace  []c03Ev
 	cancel gocontext.CancelFunc
@@ -131,7 +133,11 @@ func (w *c03World) mk(i int, returnsString bool) flamego.Handler {
 }
 
 func c03Build(s c03Shape, strMask int) *c03World {
-	w := &c03World{f: flamego.NewWithLogger(io.Discard)}
+	w := &c03World{f: flamego.NewWithLogger(io.Discard), method: "GET"}
+	if s.Head {
+		w.f.AutoHead(true)
+		w.method = "HEAD"
+	}
 	id := 0
 	next := func() flamego.Handler {
 		h := w.mk(id, strMask&(1<<id) != 0)
@@ -196,7 +202,7 @@ func c03Build(s c03Shape, strMask int) *c03World {
 		for i := 0; i < 2; i++ {
 			func() {
 				defer func() { _ = recover() }()
-				w.f.ServeHTTP(&c01Spy{hdr: http.Header{}}, newReq("GET", w.path))
+				w.f.ServeHTTP(&c01Spy{hdr: http.Header{}}, newReq(w.method, w.path))
 			}()
 		}
 		w.trace = w.trace[:0]
@@ -208,7 +214,7 @@ func c03Build(s c03Shape, strMask int) *c03World {
 		for i := 0; i < 2; i++ {
 			func() {
 				defer func() { _ = recover() }()
-				w.f.ServeHTTP(&c01Spy{hdr: http.Header{}}, newReq("GET", w.path))
+				w.f.ServeHTTP(&c01Spy{hdr: http.Header{}}, newReq(w.method, w.path))
 			}()
 		}
 		w.trace = w.trace[:0]
@@ -335,6 +341,17 @@ func c03Accept(total int, tr []c03Ev, gotStatus int, gotBody string) (bad, kind 
 	return "", ""
 }
 
+// c03ImpliedBody: the strings the trace's handlers returned, in order (what a GET would have received).
+func c03ImpliedBody(tr []c03Ev) string {
+	b := ""
+	for _, ev := range tr {
+		if ev.K == 'X' && ev.Ret == 2 {
+			b += fmt.Sprintf("s%d", ev.I)
+		}
+	}
+	return b
+}
+
 func c03TraceString(tr []c03Ev) string {
 	var b strings.Builder
 	for _, e := range tr {
@@ -366,7 +383,7 @@ func (w *c03World) run(prog []c03Beh) (status int, body string, escaped interfac
 	ctx, cancel := gocontext.WithCancel(gocontext.Background())
 	w.cancel = cancel
 	defer cancel()
-	req := newReq("GET", w.path).WithContext(ctx)
+	req := newReq(w.method, w.path).WithContext(ctx)
 	spy := &c01Spy{hdr: http.Header{}}
 	func() {
 		defer func() { escaped = recover() }()
@@ -393,6 +410,13 @@ func c03Judge(w *c03World, s c03Shape, prog []c03Beh) (bad, kind string) {
 	}
 	if esc == nil && panics {
 		return "a handler panic vanished without Recovery installed", "panic-swallowed"
+	}
+	if s.Head {
+		// a HEAD response carries no body: the chain and the status are what the statement fixes
+		if body != "" {
+			return fmt.Sprintf("HEAD request received a body %q; trace: %s", body, c03TraceString(w.trace)), "head-body"
+		}
+		body = c03ImpliedBody(w.trace)
 	}
 	b, k := c03Accept(s.n(), w.trace, status, body)
 	if b != "" {
@@ -421,6 +445,12 @@ func c03Shapes(maxN int, thorough bool) []c03Shape {
 					}
 					if m >= 1 && (thorough || n <= 3) {
 						out = append(out, c03Shape{M: m, G: g, R: r, Action: act, Swap: true})
+					}
+					if thorough || n <= 3 {
+						out = append(out, c03Shape{M: m, G: g, R: r, Action: act, Head: true})
+						if g >= 2 {
+							out = append(out, c03Shape{M: m, G: g, R: r, Action: act, Flat: true, Head: true})
+						}
 					}
 				}
 			}
